@@ -843,6 +843,16 @@ let make_m1 (params : string list) : machine =
                            let predicted = (try show_out (snd (m_step tmp (ORead (TVersion n, parse_read rd)))) with _ -> "?") in
                            if predicted = impl then Some "C14-stale-root-key" else None
                        | _ -> None)
+                  | "fault" :: "prune" :: _
+                    when is_legacy && starts_with "fl(viol,op=prune_" impl
+                         && (try ignore (Str.search_forward (Str.regexp_string ",kind=writefailedok,") impl 0); true with Not_found -> false)
+                         && (let l = z_of_string (header_param params "legacy" "0") in
+                             match !prev.forest with (w, _) :: _ -> Z.leb w l | [] -> false) ->
+                      (* C17-legacy-prune-error-swallowed: the database still holds legacy versions
+                         (the first retained version is at or below the legacy boundary) and the only
+                         symptom is the unreported write failure: the state left behind reopens to
+                         the state before or after (any other symptom kind is joined with '+') *)
+                      Some "C17-legacy-prune-error-swallowed"
                   | _ -> classify_m1 !prev toks model impl)));
     dump = (fun () ->
         (* the database image written by the proved encoder of the whole image (DbImage.encode_image)
